@@ -169,7 +169,7 @@ def patched_np_permutation(func):
         np.random.permutation = saved
 
 
-def enumerate_runs(fn, grid=None, max_leaves=200000):
+def enumerate_runs(fn, grid=None, max_leaves=200000, early=False):
     """Run ``fn()`` once per leaf of its choice tree.  Yields (probability, result, path).
 
     ``fn`` must be deterministic given the choices.  Soundness guard: the state of the real global
@@ -188,6 +188,14 @@ def enumerate_runs(fn, grid=None, max_leaves=200000):
         st_np2 = np.random.get_state()
         if not (st_np[0] == st_np2[0] and (st_np[1] == st_np2[1]).all() and st_np[2:] == st_np2[2:]):
             raise NotEnumerable("NumPy global generator consulted (only permutation is intercepted)")
+        if early and leaves == 0:
+            # uniform choice trees (a fixed number of draws per run): the product of the arities along the first path IS the number of
+            # leaves - give up before enumerating a tree that is too large rather than after max_leaves executions
+            est = 1
+            for _c, arity in cp.taken:
+                est *= arity
+            if est > max_leaves:
+                raise NotEnumerable(f"about {est} leaves (> {max_leaves})")
         yield cp.probability(), result, [c for c, _ in cp.taken]
         leaves += 1
         if leaves > max_leaves:
